@@ -659,6 +659,23 @@ func init() {
 		}
 		return Native{V: re}
 	})
+	compile := func(in *Interp, fr *frame, a []Value) Value {
+		if p, ok := strArg(a[0]).Concrete(); ok {
+			re, err := regexp.Compile(p)
+			if err != nil {
+				return Tuple{(*Value)(nil), in.mkError(fr, mkStr(err.Error()))}
+			}
+			return Tuple{Native{V: re}, nilError()}
+		}
+		// symbolic pattern: compiles or not (uninterpreted, refined against the real regexp.Compile)
+		r := in.uf("regexp.Compile", []Value{a[0]}, []Sort{BoolSort})
+		if in.br(r[0]) {
+			return Tuple{Native{V: &symRegexp{pattern: strArg(a[0])}}, nilError()}
+		}
+		return Tuple{(*Value)(nil), in.mkError(fr, mkStr("error parsing regexp: <symbolic>"))}
+	}
+	reg("regexp.Compile", compile)
+	reg("regexp.CompilePOSIX", compile)
 	reg("regexp.MatchString", func(in *Interp, fr *frame, a []Value) Value {
 		p, okp := strArg(a[0]).Concrete()
 		s := strArg(a[1])
@@ -677,6 +694,12 @@ func init() {
 		return Tuple{mkBool(false), in.mkError(fr, mkStr("error parsing regexp: <symbolic>"))}
 	})
 	reg("(*regexp.Regexp).MatchString", func(in *Interp, fr *frame, a []Value) Value {
+		if n, ok := a[0].(Native); ok {
+			if sr, isSym := n.V.(*symRegexp); isSym {
+				r := in.uf("regexp.MatchString", []Value{sr.pattern, a[1]}, []Sort{BoolSort, BoolSort})
+				return symBool(r[0])
+			}
+		}
 		return in.regexMatch(in.nativeRegexp(a[0]), strArg(a[1]))
 	})
 	reg("(*regexp.Regexp).FindAllString", func(in *Interp, fr *frame, a []Value) Value {
@@ -873,6 +896,9 @@ func init() {
 }
 
 type fakeFileInfo struct{ dir bool }
+
+// symRegexp: a *regexp.Regexp compiled from a symbolic pattern (opaque; matching is uninterpreted)
+type symRegexp struct{ pattern Str }
 
 var fileInfoMarker types.Type
 
@@ -1104,6 +1130,10 @@ var ufReal = map[string]func(args []string) []uint64{
 		return []uint64{2}
 	},
 	"json.Valid": func(a []string) []uint64 { return []uint64{b2u(json.Valid([]byte(a[0])))} },
+	"regexp.Compile": func(a []string) []uint64 {
+		_, err := regexp.Compile(a[0])
+		return []uint64{b2u(err == nil)}
+	},
 	"regexp.MatchString": func(a []string) []uint64 {
 		m, err := regexp.MatchString(a[0], a[1])
 		return []uint64{b2u(m), b2u(err == nil)}
